@@ -36,6 +36,11 @@ type ExploreOpts struct {
 	// Filter, if set, restricts deviation to points for which it returns true
 	// (focus sets); other points always take the default.
 	Filter func(p vsched.Point) bool
+	// NoShard: the whole tree is explored by the calling shard (the caller
+	// distributes scenarios over shards itself).
+	NoShard bool
+	// Quiet: do not record a sample/notes per call (many small scenarios).
+	Quiet bool
 }
 
 type SchedReplay struct {
@@ -131,7 +136,7 @@ func (c *Ctx) Explore(opts ExploreOpts, run func(cfg vsched.Config) Exec) {
 				for alt := 1; alt < p.N; alt++ {
 					if depth == 0 {
 						level1++
-						if !c.Mine(level1) {
+						if !opts.NoShard && !c.Mine(level1) {
 							continue
 						}
 					}
@@ -145,7 +150,7 @@ func (c *Ctx) Explore(opts ExploreOpts, run func(cfg vsched.Config) Exec) {
 			}
 		}
 		if bound == 0 {
-			if c.Mine(0) {
+			if opts.NoShard || c.Mine(0) {
 				rec(nil, 0, 0)
 			}
 		} else {
